@@ -177,8 +177,9 @@ class FakeSocket:
         with w.lock:
             w.sockets_created += 1
             tr = None
-            if idx is not None and idx > 0:
-                # a transfer thread (index 0 is the server's main thread)
+            if idx is not None:
+                # created inside a simulated thread: a transfer thread (the request-port thread never
+                # creates sockets; start() runs in a harness thread, which has no sim index)
                 tr = w.transfers.get(idx)
                 if tr is None:
                     plan = w.transfer_plans.pop(0) if w.transfer_plans else []
